@@ -50,7 +50,7 @@ class Tally:
              "replay": replay or {}}
         # keep the first few per contract (minimal inputs come first in every enumerator)
         n = sum(1 for x in self.violations if x["contract"] == contract)
-        if n < 8:
+        if n < 80:
             self.violations.append(v)
 
     def out_of_time(self):
